@@ -269,8 +269,26 @@ class InversionScn(Scenario):
         model = aa.Array2D(values=np.asarray(ds.data.array) * 0.5 + 0.25, mask=ds.mask)
         fit1 = aa.m.MockFitImaging(dataset=ds, use_mask_in_fit=False, model_data=model)
         fit2 = aa.m.MockFitImaging(dataset=ds, use_mask_in_fit=False, model_data=model * 0.0)
+        # an inversion whose unconstrained solution is positive in every parameter (the warm-started positive-only solver then
+        # takes its "everything passive" route), and an interferometer inversion with noise other than 1 (direct transform)
+        inst_p = json.loads(json.dumps(inst))
+        inst_p["d"] = [int(40 + (k % 3)) for k in range(len(inst["d"]))]
+        inst_p["objs"] = [o for o in inst_p["objs"] if o["type"] == "mapper"]
+        ds_p, objs_p, skw_p = ic.build(inst_p)
+        inv_pos = aa.Inversion(dataset=ds_p, linear_obj_list=objs_p, settings=aa.SettingsInversion(
+            use_w_tilde=False, use_positive_only_solver=True, positive_only_uses_p_initial=True, force_edge_pixels_to_zeros=False, **skw_p))
+        b["uv"] = rng.random((5, 2)) * 4000.0 - 2000.0
+        b["vis"] = rng.standard_normal(5) + 1j * rng.standard_normal(5)
+        b["vis_noise"] = (rng.random(5) + 0.5) + 1j * (rng.random(5) * 2.0 + 0.25)
+        self._snap(b)
+        ds_if = aa.Interferometer(data=aa.Visibilities(visibilities=b["vis"].copy()), noise_map=aa.VisibilitiesNoiseMap(visibilities=b["vis_noise"].copy()),
+                                  uv_wavelengths=b["uv"].copy(), real_space_mask=ds.mask, transformer_class=aa.TransformerDFT)
+        _, objs_if, _ = ic.build(inst)
+        inv_if = aa.Inversion(dataset=ds_if, linear_obj_list=[objs_if[0]], settings=aa.SettingsInversion(
+            use_w_tilde=False, use_linear_operators=False, use_positive_only_solver=False))
         return [("Imaging", ds), ("Mapper", mapper), ("Inversion", inv_m), ("Inversion", inv_w), ("MapperValued", mv),
-                ("Inversion", inv_1m), ("Inversion", inv_1w), ("DMapper", dmapper), ("Fit", fit1), ("Fit", fit2)], b
+                ("Inversion", inv_1m), ("Inversion", inv_1w), ("DMapper", dmapper), ("Fit", fit1), ("Fit", fit2),
+                ("Inversion", inv_pos), ("InversionVis", inv_if)], b
 
     def table(self):
         import autoarray as aa
@@ -308,6 +326,13 @@ class InversionScn(Scenario):
                                        "max_pixels": lambda o: o.max_pixel_list_from(total_pixels=3, filter_neighbors=True)}, "ops": {}},
         }
         t["Mapper"]["reads"].pop("pixel_signals")
+        from autoarray.inversion.inversion.interferometer.mapping import InversionInterferometerMapping
+
+        vis_names = ["data_vector", "curvature_matrix", "curvature_reg_matrix", "regularization_matrix", "reconstruction", "operated_mapping_matrix",
+                     "mapping_matrix", "regularization_term", "log_det_curvature_reg_matrix_term", "log_det_regularization_matrix_term"]
+        t["InversionVis"] = {"cls": InversionInterferometerMapping,
+                             "reads": dict({nm: getter(nm) for nm in vis_names}, mapped_data=lambda o: np.asarray(o.mapped_reconstructed_data),
+                                           mapped_image=lambda o: np.asarray(o.mapped_reconstructed_image.array)), "ops": {}}
         t["DMapper"] = {"cls": aa.MapperDelaunay,
                         "reads": {"mapping_matrix": lambda o: o.mapping_matrix, "unique_weights": lambda o: o.unique_mappings.data_weights,
                                   "unique_pix": lambda o: o.unique_mappings.data_to_pix_unique, "pix_sub_weights": lambda o: o.pix_sub_weights.weights,
@@ -878,6 +903,18 @@ def run(ctx):
                 jobs.append((name, h))
         for _ in range(nrand[name]):
             jobs.append((name, random_events(rng, table, base_types, ctx.bounds["random_history_length"][name], 14)))
+        # systematic access orders: for every base object, ONE quantity is read first and then every other quantity of that
+        # object (in a seeded order): whatever a read computes on the way (solves, in-place sums, LAPACK calls) must leave all
+        # the others as the cold twin reports them. Quick rotates over the first quantities; thorough takes every one.
+        for o, t in enumerate(base_types, start=1):
+            qs = sorted(table[t]["reads"])
+            if len(qs) < 2:
+                continue
+            firsts = qs if not quick else [qs[(ctx.seed + o + k * 5) % len(qs)] for k in range(min(3, len(qs)))]
+            for q0 in dict.fromkeys(firsts + [q for q in ("reconstruction", "curvature_matrix", "curvature_reg_matrix") if q in qs]):
+                rest = [q for q in qs if q != q0]
+                rest = [rest[i] for i in rng.permutation(len(rest))]
+                jobs.append((name, [{"a": "Read", "o": o, "q": q0}] + [{"a": "Read", "o": o, "q": q} for q in rest] + [{"a": "Read", "o": o, "q": q0}]))
     ctx.exhaustive = True
     groups = [jobs[k : k + 6] for k in range(0, len(jobs), 6)]
     episodes = []
